@@ -32,7 +32,7 @@ void operator delete[](void* p, size_t) noexcept { free(p); }
 static std::string hexstr(const std::string& s){ if(s.empty()) return "-"; std::string o; char b[4];
   for(unsigned char c: s){ snprintf(b,sizeof b,"%02x",c); o+=b; } return o; }
 
-static std::string dump_table(const ST& t){
+static std::string dump_table(const ST& t, bool with_aux=true){
   std::ostringstream os;
   os<<"ndim "<<t.ndim<<"\n";
   if(t.ndim==0){ os<<"end\n"; return os.str(); }
@@ -45,8 +45,8 @@ static std::string dump_table(const ST& t){
   os<<"coef"; for(uint64_t k=0;k<n;k++) os<<" "<<hexf(t.coefficients[k]); os<<"\n";
   if(t.extents){ os<<"extents"; for(uint32_t i=0;i<2*t.ndim;i++) os<<" "<<hexd(t.extents[0][i]); os<<"\n"; }
   else os<<"extents none\n";
-  os<<"naux "<<t.naux<<"\n";
-  for(uint32_t i=0;i<t.naux;i++) os<<"aux "<<hexstr(&t.aux[i][0][0])<<" "<<hexstr(&t.aux[i][1][0])<<"\n";
+  if(with_aux) os<<"naux "<<t.naux<<"\n";
+  for(uint32_t i=0;with_aux && i<t.naux;i++) os<<"aux "<<hexstr(&t.aux[i][0][0])<<" "<<hexstr(&t.aux[i][1][0])<<"\n";
   os<<"end\n";
   return os.str();
 }
@@ -114,8 +114,8 @@ static std::string battery(ST& t, const std::string& dumpout, std::string& dump)
   try{
     auto r=t.write_fits_mem();
     step("reread");
-    try{ ST t2; bool ok=t2.read_fits_mem(r.first,r.second); std::string d2=dump_table(t2);
-         st<<" reread="<<ok<<" redump="<<(d2==dump)<<" req="<<(t2==t); step("reread-destroy"); }
+    try{ ST t2; bool ok=t2.read_fits_mem(r.first,r.second); std::string d2=dump_table(t2,false);   // auxiliary keys: their round trip (blank padding, odd characters) is C06/C16's subject
+         st<<" reread="<<ok<<" redump="<<(d2==dump_table(t,false))<<" req="<<(t2==t); step("reread-destroy"); }
     catch(std::exception& e){ st<<" reread=EXC("<<oneline(e.what())<<")"; }
     free(r.first);
   }catch(std::exception& e){ st<<" reser=EXC("<<oneline(e.what())<<")"; }
